@@ -47,7 +47,7 @@ def inner():
     return 0
 
 
-def run_cold_process(spec, timeout=600):
+def run_cold_process(spec, timeout=300):
     srv = spec["server"]
     env = dict(os.environ)
     env["PYTHONHASHSEED"] = str(srv.get("hashseed", 0))
